@@ -11,7 +11,7 @@
 From Coq Require Import ZArith QArith List Bool String.
 From KV Require Import Base.Sx Base.Str Gen.Generated Model.Interp Model.SensorCache.
 Import ListNotations.
-Open Scope Q_scope.
+Local Open Scope Q_scope.
 
 (* an explicit initial_value, with its value *)
 Inductive init := IFloat (q : Q) | IInt (z : Z) | IBool (b : bool) | IStr (empty : bool).
